@@ -253,6 +253,55 @@ fn c07_dual_connector_cost() {
     core::mem::forget(conn);
 }
 
+//@ c07_kf_dual_fewer_than_8_templates {"desc":"the dual connector must be constructible for any number of templates: building its pre-summed matrix part for a model with 3 templates must not panic","bounds":"3 templates, 1 right and 1 left connection id, empty scorer","symbolic":"feature ids","functions":["DualConnector::create_matrix_connector"],"unwind":10,"fs":2048,"timeout":900,"covers":"none"}
+#[cfg(kani)]
+#[kani::proof]
+#[kani::stub(ahash::RandomState::new, crate::csvstub::stub_random_state_new)]
+fn c07_kf_dual_fewer_than_8_templates() {
+    let mut row = Vec::with_capacity(3);
+    for _ in 0..3 {
+        let x: u32 = kani::any();
+        kani::assume(x < 4);
+        row.push(U31::new(x).unwrap());
+    }
+    let rows = vec![row];
+    let sc = Scorer::verif_from_parts(Vec::new(), Vec::new(), Vec::new());
+    // from_readers() passes the template count of the model and the indices that stay in the matrix
+    // part (none here: with fewer than 8 templates all of them go to the 8 raw lanes)
+    let r = DualConnector::verif_create_matrix_connector(&rows, &rows, &[], 3, &sc);
+    core::mem::forget(r);
+}
+
+//@ c07_dual_matrix_part {"tier":"thorough","core":false,"desc":"DualConnector::create_matrix_connector: the pre-summed matrix cell of two ids' classes equals the clamped sum of the listed costs over the matrix templates, BOS/EOS row = class 0","bounds":"9 templates (1 in the matrix part), 2 right and 2 left ids with concrete feature rows, scorer 3 bases / 4 cells","symbolic":"scorer arrays (all listed costs)","functions":["DualConnector::create_matrix_connector","Scorer::accumulate_cost","MatrixConnector::new","hashbrown::HashMap (fixed seeds)"],"unwind":12,"fs":2048,"timeout":2400,"mem_gb":20}
+#[cfg(kani)]
+#[kani::proof]
+#[kani::stub(ahash::RandomState::new, crate::csvstub::stub_random_state_new)]
+fn c07_dual_matrix_part() {
+    let (mut bases, mut checks, mut costs) = ([0u32; 4], [0u32; 8], [0i32; 8]);
+    let sc = sym_scorer(3, 4, &mut bases, &mut checks, &mut costs);
+    let u = |x: u32| U31::new(x).unwrap();
+    // template 8 is the matrix template; ids 1 and 2 differ there on the right, agree on the left
+    let rr = vec![vec![u(1), u(1), u(1), u(1), u(1), u(1), u(1), u(1), u(1)], vec![u(1), u(1), u(1), u(1), u(1), u(1), u(1), u(1), u(2)]];
+    let lr = vec![vec![u(1), u(1), u(1), u(1), u(1), u(1), u(1), u(1), u(2)], vec![u(2), u(2), u(2), u(2), u(2), u(2), u(2), u(2), u(2)]];
+    let (m, rmap, lmap) = DualConnector::verif_create_matrix_connector(&rr, &lr, &[8], 9, &sc);
+    assert!(rmap.len() == 3 && lmap.len() == 3 && rmap[0] == 0 && lmap[0] == 0);
+    assert!(rmap[1] != rmap[2], "ids with different matrix features share a class");
+    assert!(lmap[1] == lmap[2], "ids with equal matrix features do not share a class");
+    let feat_r = [0u32, 1, 2];
+    let feat_l = [0u32, 2, 2];
+    for r in 0..3 {
+        for l in 0..3 {
+            let want = match ref_retrieve(3, 4, &bases, &checks, &costs, feat_r[r], feat_l[l]) {
+                Some(w) => w.clamp(i16::MIN as i32, i16::MAX as i32),
+                None => 0,
+            };
+            assert!(m.cost(rmap[r], lmap[l]) == want, "pre-summed matrix cell differs from the listed cost");
+        }
+    }
+    kani::cover!(m.cost(rmap[1], lmap[1]) != 0);
+    core::mem::forget(m);
+}
+
 //@ c07_twin {"expect":"fail","desc":"vacuity twin: claims retrieve_cost never finds anything","bounds":"as c07_scorer_retrieve","symbolic":"arrays, keys","functions":["Scorer::retrieve_cost"],"unwind":8,"timeout":600,"covers":"none"}
 #[cfg(kani)]
 #[kani::proof]
